@@ -7,7 +7,7 @@ SHARDS = {'quick': 2, 'thorough': 16}
 BUDGET = {'quick': 70, 'thorough': 600}
 RULE = ('every signature returned by merge/embed/mask/forwards/signatures.signature/sigtools.signature in the workloads '
         '(algebra over the universe incl. inner star parameters named like the outer ones, random expression trees whose '
-        'results feed further operations, partial retrieval, declared and discovered forwarding, corpus) is checked: '
+        'results feed further operations and which re-use leaf signatures (one callable reached at several depths), partial retrieval, declared and discovered forwarding, corpus) is checked: '
         "keys == parameters + '+depths', lists non-empty and duplicate-free, every callable has a depth and declares the "
         'name (own code or plain retrieval), depths >= 0 with a 0; relational rules for merge (min depth, union of sources on '
         'consistently named inputs), embed (depth + chain position, single-declarer sources), mask (unchanged), partial '
